@@ -28,6 +28,7 @@ TIERS = {
     "thorough": {"examples": 160000, "budget_s": 1500},
 }
 PARTS = ["search"]
+SLOT_ALTS_TOTAL = "distinct (object type, keyword, value class) combinations seen; the vocabulary has 414 (slot, alternative) pairs"
 
 
 def profile():
@@ -117,7 +118,7 @@ def search(acc: Acc, tier, shard, nshards):
     def body(data):
         ch = model.Ch(data.draw)
         st_ = {}
-        doc = model.Gen(ch, prof, st_).document()
+        doc = model.any_document(model.Gen(ch, prof, st_))
         canon = render.render(doc).text
         surf = render.Surface(ch, stats=st_)
         fancy = render.render(doc, surf).text
@@ -130,6 +131,11 @@ def search(acc: Acc, tier, shard, nshards):
             acc.cls("special:" + t)
         for c in s["classes"]:
             acc.cls("shape:" + c)
+        for r in doc:
+            for _, o in model.walk(r):
+                for it in o["items"]:
+                    if it[0] != "obj":
+                        acc.cls(f"sa:{o['t']}.{it[1] if it[0] != 'config' else 'config'}:{it[2] if it[0] == 'attr' else it[0]}")
         for r in doc:
             acc.cls("root:" + r["t"])
         for k, v in st_.items():
